@@ -81,6 +81,9 @@ LAYOUT_B = {
     "S/static/...": None,
     "S/static/..": None,  # cannot exist: skipped when materialising
     "S/static/.../file.txt": None,
+    # directories named like the files the pages app looks for
+    "S/static/odd/index.html/inner.txt": None,
+    "S/static/odd2.html/file.txt": None,
 }
 
 
